@@ -2,12 +2,15 @@
    common code in harness/c01/encx) print [case] terms holding the input AND what the
    implementation was observed to do; [check_case] compares with the model on the concrete
    Gallina primitives and evaluates the spec oracles of Spec.v on the observation.
-   Variant: the model is pinned to [Fixed] = the current tree (fix: commit 32f907c, a failed
-   unwrap always ends in ErrDecryptionSignature), so reverting that fix shows up as a
-   model/implementation disagreement as well as an oracle failure.
+   The model evaluated here is the one of ModelX.v (readers that may deliver data together
+   with a non-EOF error; equal to Model.v on all other scripts: C02/ProofsX.v).
+   Variants: the model is pinned to [Fixed] [Fixed] = the current tree with both fixes (commit
+   32f907c: a failed unwrap always ends in ErrDecryptionSignature; fixes/C02-header-read-error:
+   a non-EOF source error seen by readHeader is Decrypt's error), so reverting either shows up
+   as a model/implementation disagreement as well as an oracle failure.
    Long byte strings never appear literally: plaintexts are generator
    expressions, long outputs are compared through (length, SHA-256). *)
-From Kit Require Export C01.Model C01.Spec C01.Concrete Lib.CheckLib.
+From Kit Require Export C01.Model C01.ModelX C01.Spec C01.Concrete Lib.CheckLib.
 
 Definition SEG : nat := N.to_nat 65536.     (* SegmentSize *)
 Definition HDR : nat := N.to_nat 65536.     (* the header scan reads at most SegmentSize bytes *)
@@ -36,23 +39,25 @@ Definition pbytes (g : pgen) : list N :=
   | PRep pat count => rep_bytes (N.to_nat count) pat
   end.
 
-(* read scripts by lengths: the data is cut sequentially *)
-Inductive sitem := ID (n : N) | IDE (n : N) | IZ | IF.
+(* read scripts by lengths: the data is cut sequentially.  [IDX n]: n bytes delivered TOGETHER
+   with a non-EOF error, once (follow it with [IF] for a sticky error). *)
+Inductive sitem := ID (n : N) | IDE (n : N) | IZ | IF | IDX (n : N).
 
-Fixpoint mk_script (its : list sitem) (data : list N) : list rd :=
+Fixpoint mk_script (its : list sitem) (data : list N) : list rdx :=
   match its with
   | [] => []
-  | ID n :: t => Data (firstn (N.to_nat n) data) :: mk_script t (skipn (N.to_nat n) data)
-  | IDE n :: t => DataEOF (firstn (N.to_nat n) data) :: mk_script t (skipn (N.to_nat n) data)
-  | IZ :: t => Zero :: mk_script t data
-  | IF :: t => Fail :: mk_script t data
+  | ID n :: t => XD (firstn (N.to_nat n) data) :: mk_script t (skipn (N.to_nat n) data)
+  | IDE n :: t => XDE (firstn (N.to_nat n) data) :: mk_script t (skipn (N.to_nat n) data)
+  | IDX n :: t => XDX (firstn (N.to_nat n) data) :: mk_script t (skipn (N.to_nat n) data)
+  | IZ :: t => XZ :: mk_script t data
+  | IF :: t => XF :: mk_script t data
   end.
 
-(* the source reader fails before its end of file *)
+(* the source reader reports a non-EOF error before its end of file *)
 Fixpoint sitems_fail (its : list sitem) : bool :=
   match its with
   | [] => false
-  | IF :: _ => true
+  | IF :: _ | IDX _ :: _ => true
   | IDE _ :: _ => false
   | _ :: t => sitems_fail t
   end.
@@ -165,7 +170,7 @@ Inductive case :=
 Definition model_agrees (c : case) : bool :=
   match c with
   | CEnc o fk np wt p sc obs =>
-      match encrypt_stream_w concrete SEG HDR o fk np (wrap_of wt) (mk_script sc (pbytes p)), obs with
+      match encrypt_stream_wx concrete SEG HDR o fk np (wrap_of wt) (mk_script sc (pbytes p)), obs with
       | EncCallError, EOCall => true
       | EncStream out st, EOStream oout ost => obytes_match out oout && sstatus_eqb st ost
       | _, _ => false
@@ -173,10 +178,10 @@ Definition model_agrees (c : case) : bool :=
   | CDec d tbl optkn sc fk p obs =>
       let bs := doc_bytes d in
       dec_agrees true
-        (decrypt_stream concrete Fixed SEG HDR (unwrap_of tbl) optkn (mk_script sc bs)) obs
+        (decrypt_stream_x concrete Fixed Fixed SEG HDR (unwrap_of tbl) optkn (mk_script sc bs)) obs
   | CTamper p (Some bs) tbl optkn sc obs =>
       dec_agrees false
-        (decrypt_stream concrete Fixed SEG HDR (unwrap_of tbl) optkn (mk_script sc bs)) obs
+        (decrypt_stream_x concrete Fixed Fixed SEG HDR (unwrap_of tbl) optkn (mk_script sc bs)) obs
   | CTamper _ None _ _ _ _ => true
   end.
 
